@@ -690,3 +690,59 @@ func (vc *VC) absIdx(slice, i string) string {
 	vc.decl("ax:idx", "(assert (forall ((o Int) (a Int)) (! (= (idx o a) (+ o a)) :pattern ((idx o a)))))")
 	return fmt.Sprintf("(idx %s %s)", off, i)
 }
+
+// ---- sums over map ranges (ghost). For a spec function f(k, v) >= 0 (obligation) the contract
+// terms  mapsum(m, n, f)  = sum of f over the keys the n-th map range statement has produced so
+// far, and  maptotal(m, f) = sum of f over all keys of m, are uninterpreted functions of the map
+// value (and the visited set) with the defining facts of a finite sum as axioms:
+//   psum(M, {}) = 0;  psum(M, V+{k}) = psum(M, V) + f(k, M[k]) for a key k not in V;
+//   psum >= 0;  V subset of keys(M), k a key not in V  ==>  psum(M, V) + f(k, M[k]) <= total(M);
+//   V = keys(M) ==> psum(M, V) = total(M).
+// The subset/equality facts about the visited set come from the range model (trans.go: next).
+func (vc *VC) visitedPreds(m *types.Map) (sub, full string) {
+	ms := vc.mapSort(m)
+	ks := vc.sortOf(m.Key())
+	sub, full = "vsub_"+ms[2:], "vfull_"+ms[2:]
+	vc.decl("f:"+sub, fmt.Sprintf("(declare-fun %s ((Array %s Bool) %s) Bool)", sub, ks, ms))
+	vc.decl("f:"+full, fmt.Sprintf("(declare-fun %s ((Array %s Bool) %s) Bool)", full, ks, ms))
+	return
+}
+
+func (vc *VC) mapSumFuncs(m *types.Map, pd *PredDecl) (psum, ptot string) {
+	ms := vc.mapSort(m)
+	ks, vs := vc.sortOf(m.Key()), vc.sortOf(m.Elem())
+	f := vc.declarePred(pd)
+	sub, full := vc.visitedPreds(m)
+	psum, ptot = "psum_"+sanitize(pd.Name), "ptot_"+sanitize(pd.Name)
+	if vc.declared["mapsum:"+psum] {
+		return
+	}
+	vc.declared["mapsum:"+psum] = true
+	set := fmt.Sprintf("(Array %s Bool)", ks)
+	vc.decl("f:"+psum, fmt.Sprintf("(declare-fun %s (%s %s) Int)", psum, ms, set))
+	vc.decl("f:"+ptot, fmt.Sprintf("(declare-fun %s (%s) Int)", ptot, ms))
+	entry := fmt.Sprintf("(%s k (select (%s_vals M) k))", f, ms)
+	ax := []string{
+		fmt.Sprintf("(forall ((M %s)) (! (= (%s M ((as const %s) false)) 0) :pattern ((%s M ((as const %s) false)))))", ms, psum, set, psum, set),
+		fmt.Sprintf("(forall ((M %s) (V %s) (k %s)) (! (=> (and (select (%s_keys M) k) (not (select V k))) (= (%s M (store V k true)) (+ (%s M V) %s))) :pattern ((%s M (store V k true)))))", ms, set, ks, ms, psum, psum, entry, psum),
+		fmt.Sprintf("(forall ((M %s) (V %s)) (! (>= (%s M V) 0) :pattern ((%s M V))))", ms, set, psum, psum),
+		fmt.Sprintf("(forall ((M %s) (V %s) (k %s)) (! (=> (and (%s V M) (select (%s_keys M) k) (not (select V k))) (<= (+ (%s M V) %s) (%s M))) :pattern ((%s M V) (select (%s_keys M) k))))", ms, set, ks, sub, ms, psum, entry, ptot, psum, ms),
+		fmt.Sprintf("(forall ((M %s) (V %s)) (! (=> (and (%s V M) (%s V M)) (= (%s M V) (%s M))) :pattern ((%s M V) (%s V M))))", ms, set, sub, full, psum, ptot, psum, full),
+		fmt.Sprintf("(forall ((M %s)) (! (>= (%s M) 0) :pattern ((%s M))))", ms, ptot, ptot),
+	}
+	for i, a := range ax {
+		vc.decl(fmt.Sprintf("ax:%s:%d", psum, i), "(assert "+a+")")
+	}
+	_ = vs
+	vc.trust("sums over map ranges: mapsum/maptotal of %s are uninterpreted with the defining facts of a finite sum of non-negative terms as axioms (non-negativity of %s is a proof obligation)", pd.Name, pd.Name)
+	// obligation: f >= 0
+	kk := vc.freshConst("ms_k", ks)
+	vv := vc.freshConst("ms_v", vs)
+	vc.assume(vc.rangeFact(vv, m.Elem()))
+	if _, isSl := m.Elem().Underlying().(*types.Slice); isSl {
+		vc.assume(fmt.Sprintf("(and (<= 0 (slen_ %s)) (<= (slen_ %s) (scap %s)))", vv, vv, vv))
+	}
+	vc.addObl(&Obligation{Name: fmt.Sprintf("%s#mapsum.%s.nonneg", vc.unit, sanitize(pd.Name)), Kind: "assert", Guard: "true",
+		Goal: fmt.Sprintf("(>= (%s %s %s) 0)", f, kk, vv), Src: "the summand " + pd.Name + " of a map sum is non-negative"})
+	return
+}
